@@ -24,7 +24,7 @@ type wfGen struct {
 }
 
 // error flavours a scripted callback can fail with (see mkErr)
-var errFlavors = []int{1, 2, 3, 4, 7, 8}
+var errFlavors = []int{1, 2, 3, 4, 7, 8, 9}
 
 var prefixActions = []string{"a", "ab", "abc", "", "default"}
 
